@@ -39,7 +39,12 @@ Pack(ids, cur, rsize, qsize, acc) ==
          IF (rsize + e > S \/ qsize + m > S) /\ cur # <<>> THEN Pack(Tail(ids), <<i>>, MOVH + e, MOVH + m, Append(acc, cur))
          ELSE Pack(Tail(ids), Append(cur, i), rsize + e, qsize + m, acc)
 
-Fragmented(r) == IF mode = "read" THEN Est(r) + MOVH > S ELSE Msg(r) + MOVH > S
+\* a call with exactly one request takes the single-request path: no multi-service overhead in the decision
+Single == Len(reqs) = 1
+\* (as written in _write_build_single_request the value bytes are counted twice - len(write_value) + len(message) - so a
+\* single write is fragmented earlier than necessary; harmless for the contract, kept because the model follows the code)
+Fragmented(r) == IF Single THEN (IF mode = "read" THEN Est(r) > S ELSE Msg(r) + r.d > S)
+                 ELSE IF mode = "read" THEN Est(r) + MOVH > S ELSE Msg(r) + MOVH > S
 Place == /\ ~placed
          /\ LET n == Len(reqs)
                 sendable == SelectSeq([i \in 1..n |-> i], LAMBDA i : ~IsBad(reqs[i]))
@@ -54,7 +59,10 @@ InGroups(i) == Cardinality({g \in 1..Len(groups) : \E k \in 1..Len(groups[g]) : 
 InFrags(i)  == Cardinality({k \in 1..Len(frags) : frags[k] = i})
 ExactlyOnePacket == placed => \A i \in 1..Len(reqs) : IF IsBad(reqs[i]) THEN InGroups(i) + InFrags(i) = 0 ELSE InGroups(i) + InFrags(i) = 1
 NoEmptyPacket    == \A g \in 1..Len(groups) : groups[g] # <<>>
-GroupReplyFits   == \A g \in 1..Len(groups) : RealReply(groups[g]) <= S
-GroupRequestFits == \A g \in 1..Len(groups) : RealRequest(groups[g]) <= S
+BareReply(r)     == IF mode = "read" THEN 2 + 4 + 2 + r.d ELSE 2 + 4
+GroupReplyFits   == \A g \in 1..Len(groups) : IF Single THEN BareReply(reqs[groups[g][1]]) <= S ELSE RealReply(groups[g]) <= S
+GroupRequestFits == \A g \in 1..Len(groups) : IF Single THEN Msg(reqs[groups[g][1]]) <= S ELSE RealRequest(groups[g]) <= S
+\* behaviour generation (R2): every request list with the placement the design computes for it
+Emit == placed => PrintT(<<"BEH", mode, [i \in 1..Len(reqs) |-> <<reqs[i].d, reqs[i].p>>], groups, frags>>)
 OrderPreserved   == \A g \in 1..Len(groups) : \A a, b \in 1..Len(groups[g]) : a < b => groups[g][a] < groups[g][b]
 =============================================================================
